@@ -195,4 +195,9 @@ static Register t6("c01.trim.n3s3.a4b4", "C01", "pairs of TRIMMED automata of TA
 static Register t7("c01.trim.n2s2.a4b6", "C01", "pairs of TRIMMED automata of TA(2,{a:0,b:0,g:2}): A <=4 x B <=6 rules, 8 variants, 2 numberings", [](Env& e) { runTrim(e, "c01.trim.n2s2.a4b6", 2, dom::Sigma2(), 4, 6, true); });
 static Register t8("c01.trim.n2s2.a5b7", "C01", "pairs of TRIMMED automata of TA(2,{a:0,b:0,g:2}): A <=5 x B <=7 rules, 8 variants", [](Env& e) { runTrim(e, "c01.trim.n2s2.a5b7", 2, dom::Sigma2(), 5, 7, false); });
 static Register t9("c01.trim.n2s2.a3b5", "C01", "pairs of TRIMMED automata of TA(2,{a:0,b:0,g:2}): A <=3 x B <=5 rules, 8 variants, 2 numberings", [](Env& e) { runTrim(e, "c01.trim.n2s2.a3b5", 2, dom::Sigma2(), 3, 5, true); });
+static Register t11("c01.trim.n3abf.a4b2", "C01", "pairs of TRIMMED automata of TA(3,{a:0,b:0,f:1}): A <=4 x B <=2 rules (unary chains/loops: the recursive searches revisit ancestors), 8 variants, 2 numberings", [](Env& e) { runTrim(e, "c01.trim.n3abf.a4b2", 3, dom::SigmaABF(), 4, 2, true); });
+static Register t12("c01.trim.n3abf.a5b3", "C01", "pairs of TRIMMED automata of TA(3,{a:0,b:0,f:1}): A <=5 x B <=3 rules, 8 variants, 2 numberings", [](Env& e) { runTrim(e, "c01.trim.n3abf.a5b3", 3, dom::SigmaABF(), 5, 3, true); });
+static Register t13("c01.trim.n4abf.a5b3", "C01", "pairs of TRIMMED automata of TA(4,{a:0,b:0,f:1}): A <=5 x B <=3 rules, 8 variants", [](Env& e) { runTrim(e, "c01.trim.n4abf.a5b3", 4, dom::SigmaABF(), 5, 3, false); });
+static Register t15("c01.trim.n4abf.a4b3", "C01", "pairs of TRIMMED automata of TA(4,{a:0,b:0,f:1}): A <=4 x B <=3 rules, 8 variants", [](Env& e) { runTrim(e, "c01.trim.n4abf.a4b3", 4, dom::SigmaABF(), 4, 3, false); });
+static Register t14("c01.trim.n3abfg1.a4b3", "C01", "pairs of TRIMMED automata of TA(3,{a:0,b:0,f:1,g:1}): A <=4 x B <=3 rules, 8 variants", [](Env& e) { runTrim(e, "c01.trim.n3abfg1.a4b3", 3, dom::SigmaABFG1(), 4, 3, false); });
 }  // namespace c01
